@@ -106,10 +106,11 @@ impl RootFile {
     pub fn total_files(&self) -> u32 {
         self.header.as_ref().map_or_else(
             || {
+                // Block headers of a hostile file can claim more records than fit a u32
                 self.blocks
                     .iter()
                     .map(super::block::RootBlock::num_records)
-                    .sum()
+                    .fold(0u32, u32::saturating_add)
             },
             super::header::RootHeader::total_files,
         )
